@@ -290,39 +290,7 @@ func runC09(c *Ctx) {
 				}
 			}
 		})
-		// channel registrar: success edge must not reach a reply
-		allInstrs(d, func(in ssa.Instruction) {
-			if !c.isChanRegistrarCall(in) {
-				return
-			}
-			call := in.(*ssa.Call)
-			construct := fmt.Sprintf("%s: channel registration", fname(d))
-			var okBranch *ssa.BasicBlock
-			for _, ref := range transitiveUses(call) {
-				bo, ok := ref.(*ssa.BinOp)
-				if !ok || (bo.Op != token.EQL && bo.Op != token.NEQ) || !(isNilConst(bo.X) || isNilConst(bo.Y)) {
-					continue
-				}
-				for _, r2 := range *bo.Referrers() {
-					if iff, ok := r2.(*ssa.If); ok {
-						if bo.Op == token.EQL {
-							okBranch = iff.Block().Succs[0]
-						} else {
-							okBranch = iff.Block().Succs[1]
-						}
-					}
-				}
-			}
-			if okBranch == nil {
-				c.bad("R09.3", construct, c.ipos(call), "the registrar's error is not tested: a channel result is announced by the forwarder and answered again here")
-				return
-			}
-			if w := reachFromBlock(okBranch, isReply, nil); w != nil {
-				c.bad("R09.3", construct, c.ipos(w), "after a successful channel registration (the forwarder sends the response) a second reply is emitted")
-			} else {
-				c.ok("R09.3", construct, c.ipos(call), "success path returns without another reply")
-			}
-		})
+		c.registrarRule("R09.3")
 		// at least one for id-bearing requests
 		{
 			construct := fmt.Sprintf("%s: every id-bearing path replies", fname(d))
@@ -1086,4 +1054,54 @@ func (c *Ctx) idNilTestFrame(v ssa.Value) (isTest, nonNilWhenTrue bool) {
 		return true, bo.Op == token.NEQ
 	}
 	return false, false
+}
+
+// registrarRule: after a successful channel registration (the forwarder announces the channel) no other reply is emitted.
+func (c *Ctx) registrarRule(rule string) {
+	r := c.R
+	d := r.FnDisp
+	if d == nil {
+		c.und(rule, "dispatcher", "-", "not resolved")
+		return
+	}
+	isReply := func(in ssa.Instruction) bool { return c.isErrFnCall(in) || c.isSuccessEmit(in) }
+	RULE := rule
+	n := 0
+		// channel registrar: success edge must not reach a reply
+		allInstrs(d, func(in ssa.Instruction) {
+			if !c.isChanRegistrarCall(in) {
+				return
+			}
+			n++
+			call := in.(*ssa.Call)
+			construct := fmt.Sprintf("%s: channel registration", fname(d))
+			var okBranch *ssa.BasicBlock
+			for _, ref := range transitiveUses(call) {
+				bo, ok := ref.(*ssa.BinOp)
+				if !ok || (bo.Op != token.EQL && bo.Op != token.NEQ) || !(isNilConst(bo.X) || isNilConst(bo.Y)) {
+					continue
+				}
+				for _, r2 := range *bo.Referrers() {
+					if iff, ok := r2.(*ssa.If); ok {
+						if bo.Op == token.EQL {
+							okBranch = iff.Block().Succs[0]
+						} else {
+							okBranch = iff.Block().Succs[1]
+						}
+					}
+				}
+			}
+			if okBranch == nil {
+				c.bad(RULE, construct, c.ipos(call), "the registrar's error is not tested: a channel result is announced by the forwarder and answered again here")
+				return
+			}
+			if w := reachFromBlock(okBranch, isReply, nil); w != nil {
+				c.bad(RULE, construct, c.ipos(w), "after a successful channel registration (the forwarder sends the response) a second reply is emitted")
+			} else {
+				c.ok(RULE, construct, c.ipos(call), "success path returns without another reply")
+			}
+		})
+	if n == 0 {
+		c.bad(rule, fmt.Sprintf("%s: channel registration", fname(d)), c.P.pos(d.Pos()), "channel results are no longer handed to the forwarding goroutine")
+	}
 }
